@@ -279,17 +279,18 @@ func classify(s string) string {
 // ---------------------------------------------------------------------------------------------
 
 type exchangeCase struct {
-	Path     string `json:"path"` // proxied | 429 | 503 | 413 | 401
-	Method   string `json:"method"`
-	Target   string `json:"target"`
-	Req      idVal  `json:"request_id_value"`
-	Trace    idVal  `json:"trace_value"`
-	Status   int    `json:"backend_status,omitempty"`
-	Client   string `json:"x_forwarded_for,omitempty"`
-	Reuse    bool   `json:"reuse_conn,omitempty"`
-	Interim  bool   `json:"backend_interim_103,omitempty"` // the backend sends "103 Early Hints" before its final response
-	Backend  string `json:"backend_id_headers,omitempty"`  // "": none; "echo": the backend copies the ID headers it received into its response; "own": it sends values of its own under those names
-	Excluded string `json:"-"`
+	Path        string `json:"path"` // proxied | 429 | 503 | 413 | 401
+	Method      string `json:"method"`
+	Target      string `json:"target"`
+	Req         idVal  `json:"request_id_value"`
+	Trace       idVal  `json:"trace_value"`
+	Status      int    `json:"backend_status,omitempty"`
+	Client      string `json:"x_forwarded_for,omitempty"`
+	Reuse       bool   `json:"reuse_conn,omitempty"`
+	Interim     bool   `json:"backend_interim,omitempty"` // the backend sends an interim response (InterimCode: 100 Continue, 102 Processing, 103 Early Hints) before its final one
+	InterimCode int    `json:"backend_interim_code,omitempty"`
+	Backend     string `json:"backend_id_headers,omitempty"` // "": none; "echo": the backend copies the ID headers it received into its response; "own": it sends values of its own under those names
+	Excluded    string `json:"-"`
 }
 
 var proxiedStatuses = []int{200, 200, 201, 204, 302, 404, 500, 502, 503}
@@ -334,6 +335,7 @@ func genExchange(t *rapid.T, lc labCfg, st *labState) exchangeCase {
 	ec.Status = rapid.SampledFrom(proxiedStatuses).Draw(t, "status")
 	ec.Reuse = rapid.Bool().Draw(t, "reuse")
 	ec.Interim = rapid.IntRange(0, 4).Draw(t, "interim") == 0
+	ec.InterimCode = rapid.SampledFrom([]int{103, 103, 100, 102}).Draw(t, "interim_code")
 	ec.Backend = rapid.SampledFrom([]string{"", "", "", "", "", "", "echo", "own"}).Draw(t, "backend-ids")
 	if lc.RateLimit {
 		// the limiter attributes a request to the first X-Forwarded-For element (documented), so a
